@@ -63,6 +63,7 @@ _RM = SR.from_euler('xyz', [0.4, -0.9, 1.3]).as_matrix()
 CELLS['tr'] = (np.array(CELLS['t1']) @ _RM.T).tolist()      # t1 in an arbitrary orientation
 CELLS['big'] = [[60., 0, 0], [0, 61., 0], [0, 0, 62.]]
 CELLS['bigt'] = [[60., 0, 0], [-14., 58., 0], [9., -11., 55.]]
+CELLS['t5'] = [[10., 0, 0], [8., 6., 0], [1.5, -2., 9.]]      # strongly tilted: 37 degrees between a and b, perpendicular height / |b| = 0.59
 CELLS['orot'] = [[6.0, 8.0, 0.0], [-8.8, 6.6, 0.0], [0.0, 0.0, 12.0]]     # mutually perpendicular vectors (10, 11, 12) NOT aligned with x, y, z
 
 POSES = {
